@@ -283,6 +283,92 @@ def same_name_subroutines(ctx, S, kernel_ns):
 HEUR = {}        # program term -> {subroutine: AggressiveUnroll.inline_heuristic(code)}
 
 
+# ---------- fixed programs whose event COUNT or zone operands depend on shapes and on which of two equal-looking zones is taken ----------
+SHAPE_PROGS = {
+    # loop bounds taken from the length of a grid the type checker knows the literal shape of (a 3 x 2 zone passed as an argument)
+    "lengths-of-typed-grids": ("(zone: grid.Grid[Literal[3], Literal[2]], c: bool)", """
+    reg = filled.vacate(zone, [(0, 0)])
+    init.fill([reg])
+    par = filled.get_parent(reg)
+    i = 0
+    for i in range(len(grid.get_xpos(par))):
+        gate.local_rz(0.25 * i, grid.sub_grid(par, [i], [0, 1]))
+    for i in range(len(grid.get_ypos(par))):
+        gate.local_r(0.5, 0.125 * i, grid.sub_grid(par, [0, 1, 2], [i]))
+    for i in range(len(grid.get_xpos(reg))):
+        gate.global_rz(1.0 * i)
+    for i in range(len(grid.get_ypos(filled.fill(reg, [(0, 0)])))):
+        gate.global_r(0.5, 1.0 * i)
+    sh = filled.shift(reg, 1.0, 2.0)
+    for i in range(len(grid.get_xpos(filled.get_parent(sh)))):
+        gate.local_rz(0.5 * i, sh)
+    rp = filled.repeat(reg, 2, 1, 50.0, 50.0)
+    for i in range(len(grid.get_xpos(rp))):
+        gate.global_rz(0.5 + i)
+    for i in range(len(grid.get_ypos(filled.get_parent(rp)))):
+        gate.global_rz(0.75 + i)
+"""),
+    # a run-time branch between a zone and the SAME zone with masked sites, both compile-time constants on some routes
+    "zone-or-its-masked-copy": ("(zone: grid.Grid[Literal[3], Literal[2]], c: bool)", """
+    z = spec.get_static_trap(zone_id="traps")
+    if c:
+        r = filled.vacate(z, [(1, 1)])
+    else:
+        r = z
+    init.fill([r])
+    gate.local_rz(0.5, r)
+    q = filled.vacate(z, [(0, 0)])
+    if c:
+        q = filled.vacate(z, [(0, 0), (2, 1)])
+    gate.local_r(0.25, 0.5, q)
+    e = filled.fill(z, [(0, 0), (0, 1), (0, 2), (1, 0), (1, 1), (1, 2), (2, 0), (2, 1), (2, 2), (3, 0), (3, 1), (3, 2)])
+    if c:
+        e = z
+    gate.top_hat_cz(e)
+"""),
+}
+
+
+def shape_programs(ctx, S, kernel_ns):
+    """the fixed programs above on every route (all 36 + AggressiveUnroll to a fixpoint), arguments: a 3 x 2 zone and both truth values"""
+    from bloqade.geometry.dialects.grid import Grid
+    from bloqade.shuttle.passes.fold import AggressiveUnroll
+    from bloqade.shuttle.prelude import move
+    zone = Grid.from_positions([0.0, 10.0, 20.0], [0.0, 5.0])
+    n = 0
+    for name, (sig, body) in SHAPE_PROGS.items():
+        src = "@move\ndef main" + sig + ":" + body
+        for c in (True, False):
+            args = (zone, c)
+            ref = move_native.run_native(src, args, S, kernel_ns=kernel_ns)
+            if ref[0] != "ok" or len(ref[1]) < 3:
+                ctx.obligation(f"the fixed program {name} runs natively", False, str(ref[-1])[:200])
+                continue
+            want = text_of(ref[1])
+            for o, post in all_routes() + [(dict(fold=True, aggressive=False, typeinfer=True, verify=True, arch_spec=a), "AggressiveUnroll-fixpoint") for a in (False, True)]:
+                rn = route_name(o, post)
+                ctx.evaluations += 1
+                n += 1
+                try:
+                    if post == "AggressiveUnroll-fixpoint":
+                        m = compile_route(src, o, None, S, kernel_ns)
+                        AggressiveUnroll(move).fixpoint(m)
+                    else:
+                        m = compile_route(src, o, post, S, kernel_ns)
+                    st, evs, extra = run_route(m, o, args, S)
+                except Exception as e:
+                    st, evs, extra = "err", [], f"{type(e).__name__}: {e}"
+                got = text_of(evs)
+                if st != "ok" or got != want:
+                    k = next((j for j in range(min(len(got), len(want))) if got[j] != want[j]), min(len(got), len(want)))
+                    ctx.fail({"kind": "events-differ", "program": name, "route": rn}, {"shape_prog": name, "route": rn, "c": c},
+                             f"fixed program {name} (c={c}) on route {rn}: {len(got)} events vs {len(want)} in the source evaluation; first difference at {k}: "
+                             f"{(got[k] if k < len(got) else '<none>')[:100]} vs {(want[k] if k < len(want) else '<none>')[:100]}" + (f" ({str(extra)[:100]})" if st != "ok" else ""))
+                else:
+                    ctx.nt(("shape-prog", name, c, rn))
+    ctx.count("fixed shape / masked-zone programs x routes", n)
+
+
 def run(ctx):
     S = tweezer_prog.harness_spec()
     HEUR.clear()
@@ -365,6 +451,7 @@ def run(ctx):
     compilation_histories(ctx, S, ctx.pick(10, 80))
     same_name_subroutines(ctx, S, kernel_ns)
     twin_device_functions(ctx, S, kernel_ns)
+    shape_programs(ctx, S, kernel_ns)
     # ---- Coq: the source-level semantics of Model.MoveLang on the same programs ----
     byprog = {}
     for c in labels_cases:
@@ -437,6 +524,21 @@ def reflect_purity(ctx):
 
 def replay(data):
     inp = data["input"]
+    if "shape_prog" in inp:
+        class C:
+            def __init__(s): s.fails, s.evaluations = [], 0
+            def fail(s, sig, rep, what):
+                if rep["shape_prog"] == inp["shape_prog"] and rep["route"] == inp["route"] and rep["c"] == inp["c"]:
+                    s.fails.append(what)
+            def nt(s, *a): pass
+            def count(s, *a): pass
+            def obligation(s, n, ok, log=""):
+                if not ok: s.fails.append(n)
+        c = C()
+        S = tweezer_prog.harness_spec()
+        tw_src = "".join(f"@tweezer\ndef {n}{sig}:{body}\n" for n, (sig, body, _) in move_prog.TWEEZERS.items())
+        shape_programs(c, S, {k: v for k, v in kernels.define(tw_src).items() if k in move_prog.TWEEZERS})
+        return bool(c.fails), (c.fails or ["the route executes the events of the source"])[0][:200]
     if "src" not in inp:
         return True, "re-run bin/check C04"
     S = tweezer_prog.harness_spec()
